@@ -191,3 +191,86 @@ Corollary np_midext_evo_rows ml :
 Proof. rewrite np_midext_evo_closed. unfold midext_evo. rewrite map_map. reflexivity. Qed.
 Corollary np_midext_evo_evolve_midext max_time p : np_midext_evo max_time p = NumpyMatrix.evolve_midext max_time p.
 Proof. rewrite np_midext_evo_closed, NumpyMatrix.evolve_midext_closed. reflexivity. Qed.
+
+(** * contra_state_dist_evo *)
+Lemma map2_map_l {X A B C} (g : A -> B -> C) (h : X -> A) : forall l lb,
+  map2 g (map h l) lb = map2 (fun x b => g (h x) b) l lb.
+Proof. induction l as [|x l IH]; intros [|b lb]; cbn [map map2]; try reflexivity. rewrite IH. reflexivity. Qed.
+Lemma map2_swap {A B C} (g : A -> B -> C) : forall la lb, map2 g la lb = map2 (fun b a => g a b) lb la.
+Proof. induction la as [|a la IH]; intros [|b lb]; cbn [map2]; try reflexivity. rewrite IH. reflexivity. Qed.
+Lemma map2_ext {A B C} (g g' : A -> B -> C) : (forall a b, g a b = g' a b) -> forall la lb, map2 g la lb = map2 g' la lb.
+Proof. intros H. induction la as [|a la IH]; intros [|b lb]; cbn [map2]; try reflexivity. rewrite H, IH. reflexivity. Qed.
+
+(** the static coin: [A *= c] is the model's [map (vscale c)] *)
+Lemma np_imul_s_vscale A c : np_imul_s A c = map (vscale c) A.
+Proof. unfold np_imul_s, vscale. apply map_ext. intros r. apply map_ext. intros x. ring. Qed.
+
+(** the evolving extension: [A *= midext_evo[:, 0].reshape(-1, 1)] scales row t by (1-p)^t *)
+Lemma np_imul_colm_midext ml (A : mat) :
+  np_imul_colm A (np_reshape_col (np_getcol (np_midext_evo (ml_maxt ml) (ml_midext ml)) 0))
+  = map2 (fun '(a, _) r => vscale a r) (midext_evo ml) A.
+Proof.
+  rewrite np_midext_evo_closed. unfold np_imul_colm, np_reshape_col, np_getcol, midext_evo.
+  rewrite !map_map, map2_map_r, map2_map_l, map2_swap. apply map2_ext. intros t r.
+  unfold midext_row, vscale. cbn [nth]. apply map_ext. intros x. ring.
+Qed.
+
+Lemma np_zeros_like_rows N (A : mat) : Forall (fun r => length r = N) A -> np_zeros_like A = repeat (zeros N) (length A).
+Proof.
+  induction 1 as [|r A Hr _ IH]; cbn [np_zeros_like map length repeat]; [reflexivity|].
+  unfold np_zeros_like in IH. rewrite IH. f_equal. rewrite map_const_repeat, Hr. reflexivity.
+Qed.
+
+(** the recursion [ext[t + 1] = (p * noext[t] + ext[t]) @ T] over rows 0 .. max_time - 1, started from an all-zero
+    array whose row 0 is [cur], fills in the model's [ext_rows] *)
+Lemma ext_loop p T w z : forall rows r pre_n pre_e cur, length pre_n = length pre_e ->
+  fold_left (fun (E : mat) (t : nat) =>
+      np_set_row E (t + 1) (vecmat_w w (np_vadd (np_smul p (np_row (pre_n ++ r :: rows) t)) (np_row E t)) T))
+    (seq (length pre_e) (length rows)) (pre_e ++ cur :: repeat z (length rows))
+  = pre_e ++ ext_rows p T w (r :: rows) cur.
+Proof.
+  induction rows as [|r' rows IH]; intros r pre_n pre_e cur Hl; cbn [length seq fold_left repeat]; [reflexivity|].
+  rewrite ext_rows_cons2.
+  set (F := fun (E : mat) (t : nat) =>
+      np_set_row E (t + 1) (vecmat_w w (np_vadd (np_smul p (np_row (pre_n ++ r :: r' :: rows) t)) (np_row E t)) T)).
+  assert (Hstep : F (pre_e ++ cur :: z :: repeat z (length rows)) (length pre_e)
+                  = (pre_e ++ [cur]) ++ vecmat_w w (vadd (vscale p r) cur) T :: repeat z (length rows)).
+  { unfold F, np_set_row, np_row, np_vadd, np_smul.
+    replace (nth (length pre_e) (pre_n ++ r :: r' :: rows) []) with r by (rewrite <- Hl; symmetry; apply nth_middle).
+    rewrite nth_middle, set_nth_app. cbn [set_nth]. rewrite <- app_assoc. reflexivity. }
+  rewrite Hstep. unfold F.
+  replace (pre_n ++ r :: r' :: rows) with ((pre_n ++ [r]) ++ r' :: rows) by (rewrite <- app_assoc; reflexivity).
+  replace (S (length pre_e)) with (length (pre_e ++ [cur])) by (rewrite app_length; cbn [length]; lia).
+  rewrite IH by (rewrite !app_length; cbn [length]; lia).
+  rewrite <- app_assoc. reflexivity.
+Qed.
+
+Lemma state_dist_evo_length u : length (state_dist_evo u) = S (u_maxt u).
+Proof. unfold state_dist_evo. apply evo_rows_length. Qed.
+
+Theorem np_contra_state_dist_evo_model ml : wf_midline ml = true ->
+  np_contra_state_dist_evo (uctx_of (b_contra (ml_noext ml))) (uctx_of (b_contra (ml_ext ml)))
+                           (ml_maxt ml) (ml_midext ml) (ml_evo ml)
+  = contra_state_dist_evo ml.
+Proof.
+  intros Hwf. destruct (wf_midline_parts ml Hwf) as (Hi & He & Hn & Hme & Hmn & HS).
+  unfold np_contra_state_dist_evo, contra_state_dist_evo, uctx_of. cbn [uc_T uc_sl uc_maxt]. cbv zeta.
+  rewrite (np_state_dist_evo_model _ Hn).
+  destruct (ml_evo ml); cbn [negb].
+  - rewrite np_imul_colm_midext. f_equal.
+    set (w := nstates (b_contra (ml_ext ml))).
+    assert (Hw : (u_base (b_contra (ml_noext ml)) ^ u_n (b_contra (ml_noext ml)))%nat = w).
+    { unfold w. rewrite nstates_length, <- HS. symmetry. apply u_states_len. }
+    assert (Hc : ncols (transition_matrix (b_contra (ml_ext ml))) = w).
+    { apply ncols_square. apply (transition_matrix_shape _ He). }
+    unfold np_vecmat. rewrite Hc.
+    rewrite (np_zeros_like_rows w) by (rewrite <- Hw; apply (state_dist_evo_rows _ Hn)).
+    rewrite state_dist_evo_length, Hmn.
+    set (N' := map2 (fun '(a, _) r => vscale a r) (midext_evo ml) (state_dist_evo (b_contra (ml_noext ml)))).
+    assert (HN : length N' = S (ml_maxt ml)).
+    { unfold N', midext_evo. rewrite map2_length, map_length, seq_length, state_dist_evo_length, Hmn. apply Nat.min_id. }
+    destruct N' as [|r rows]; [discriminate HN|]. cbn [length] in HN. injection HN as HN.
+    unfold np_range. rewrite Nat.sub_0_r, <- HN.
+    exact (ext_loop (ml_midext ml) (transition_matrix (b_contra (ml_ext ml))) w (zeros w) rows r [] [] (zeros w) eq_refl).
+  - rewrite (np_state_dist_evo_model _ He), !np_imul_s_vscale. reflexivity.
+Qed.
